@@ -1,10 +1,10 @@
 package main
 
 import (
-	"os"
 	"fmt"
 	"go/token"
 	"go/types"
+	"os"
 	"strings"
 
 	"golang.org/x/tools/go/ssa"
@@ -56,7 +56,11 @@ func c09r1(r *R) {
 	for _, fn := range r.modFuncs() {
 		eachInstr(fn, func(ins ssa.Instruction) {
 			s, ok := ins.(*ssa.Send)
-			if !ok || !strings.HasSuffix(typeStr(s.Chan.Type()), "chan martian/h2.queuedFrame") {
+			if !ok {
+				return
+			}
+			// a channel of queued frames, whatever direction its type is narrowed to
+			if ch, isChan := s.Chan.Type().Underlying().(*types.Chan); !isChan || !strings.HasSuffix(typeStr(ch.Elem()), "martian/h2.queuedFrame") {
 				return
 			}
 			n++
